@@ -84,7 +84,7 @@ func h4TextAlts(v ssa.Value, isResp func(ssa.Value) bool, depth int) []h4Alt {
 // carrying the conditions that dominate that return; the helper's parameters are bound to the
 // arguments of the call (env), its values keep that binding in their leaves. helpers is the number
 // of nested helper levels still allowed.
-func h4TextAltsX(v ssa.Value, isResp func(ssa.Value) bool, env g5Env, depth, helpers int) []h4Alt {
+func h4TextAltsX(v ssa.Value, isResp func(ssa.Value) bool, env g5Env, depth, helpers int, known ...Cond) []h4Alt {
 	opaque := []h4Alt{{leaves: []h4Leaf{{kind: h4Value, v: v, env: env}}}}
 	if v == nil || depth > 10 {
 		return opaque
@@ -95,7 +95,7 @@ func h4TextAltsX(v ssa.Value, isResp func(ssa.Value) bool, env g5Env, depth, hel
 	}
 	if p, ok := v.(*ssa.Parameter); ok {
 		if a, bound := env[p]; bound {
-			return h4TextAltsX(a, isResp, env, depth+1, helpers)
+			return h4TextAltsX(a, isResp, env, depth+1, helpers, known...)
 		}
 	}
 	if call, ok := v.(*ssa.Call); ok && helpers > 0 && call.Parent() != nil {
@@ -105,7 +105,58 @@ func h4TextAltsX(v ssa.Value, isResp func(ssa.Value) bool, env g5Env, depth, hel
 				if env2, okE := env.with(callee, call); okE {
 					var out []h4Alt
 					for _, ret := range returnsOf(callee) {
-						for _, a := range h4TextAltsX(ret.Results[0], isResp, env2, depth+1, helpers-1) {
+						for _, a := range h4TextAltsX(ret.Results[0], isResp, env2, depth+1, helpers-1, condsAt(ret.Block())...) {
+							a.conds = append(append([]Cond(nil), a.conds...), condsAt(ret.Block())...)
+							out = append(out, a)
+						}
+					}
+					if len(out) > 0 && len(out) <= h4MaxAlts {
+						return out
+					}
+					return opaque
+				}
+			}
+		}
+	}
+	// result i of a same-package helper with several results (x, ok := h(..)): one alternative per
+	// return of the helper that does not contradict what is known, where the text is used, about the
+	// OTHER results of the same call (round 4)
+	if ex, ok := v.(*ssa.Extract); ok && helpers > 0 {
+		if call, ok := ex.Tuple.(*ssa.Call); ok && call.Parent() != nil {
+			callee := call.Call.StaticCallee()
+			if callee != nil && callee.Blocks != nil && callee != call.Parent() && pkgRel(callee) == pkgRel(call.Parent()) && callee.Recover == nil && callee.Signature.Results().Len() > ex.Index {
+				if env2, okE := env.with(callee, call); okE {
+					want := map[int]bool{}
+					for _, cd := range known {
+						val, truth := cd.V, cd.Truth
+						for {
+							if u, isNot := val.(*ssa.UnOp); isNot && u.Op == token.NOT {
+								val, truth = u.X, !truth
+								continue
+							}
+							break
+						}
+						if e2, isEx := val.(*ssa.Extract); isEx && e2.Tuple == ssa.Value(call) && e2.Index != ex.Index {
+							want[e2.Index] = truth
+						}
+					}
+					var out []h4Alt
+					for _, ret := range returnsOf(callee) {
+						if len(ret.Results) <= ex.Index {
+							continue
+						}
+						excluded := false
+						for j, w := range want {
+							if j < len(ret.Results) {
+								if b, isC := constBool(resOf(ret, j)); isC && b != w {
+									excluded = true
+								}
+							}
+						}
+						if excluded {
+							continue
+						}
+						for _, a := range h4TextAltsX(resOf(ret, ex.Index), isResp, env2, depth+1, helpers-1, condsAt(ret.Block())...) {
 							a.conds = append(append([]Cond(nil), a.conds...), condsAt(ret.Block())...)
 							out = append(out, a)
 						}
@@ -128,7 +179,7 @@ func h4TextAltsX(v ssa.Value, isResp func(ssa.Value) bool, env g5Env, depth, hel
 		}
 	case *ssa.BinOp:
 		if x.Op == token.ADD {
-			out := h4Cross(h4TextAltsX(x.X, isResp, env, depth+1, helpers), h4TextAltsX(x.Y, isResp, env, depth+1, helpers))
+			out := h4Cross(h4TextAltsX(x.X, isResp, env, depth+1, helpers, known...), h4TextAltsX(x.Y, isResp, env, depth+1, helpers, known...))
 			if len(out) > h4MaxAlts {
 				return opaque
 			}
@@ -142,7 +193,7 @@ func h4TextAltsX(v ssa.Value, isResp func(ssa.Value) bool, env g5Env, depth, hel
 		}
 		var out []h4Alt
 		for i, e := range x.Edges {
-			for _, a := range h4TextAltsX(e, isResp, env, depth+1, helpers) {
+			for _, a := range h4TextAltsX(e, isResp, env, depth+1, helpers, h4EdgeConds(x.Block().Preds[i], x.Block())...) {
 				a.edges = append(append([]h4Edge(nil), a.edges...), h4Edge{x.Block().Preds[i], x.Block()})
 				out = append(out, a)
 			}
@@ -154,13 +205,13 @@ func h4TextAltsX(v ssa.Value, isResp func(ssa.Value) bool, env g5Env, depth, hel
 	case *ssa.Call:
 		if callName(&x.Call) == "fmt.Sprintf" {
 			if f, ok := constString(x.Call.Args[0]); ok {
-				return h4ExpandFormatX(f, h4VarArgs(x, 1), isResp, env, depth+1, helpers)
+				return h4ExpandFormatX(f, h4VarArgs(x, 1), isResp, env, depth+1, helpers, known...)
 			}
 		}
 	case *ssa.UnOp:
 		if x.Op == token.MUL {
 			if o := origin(x); o != ssa.Value(x) {
-				return h4TextAltsX(o, isResp, env, depth+1, helpers)
+				return h4TextAltsX(o, isResp, env, depth+1, helpers, known...)
 			}
 		}
 	}
@@ -209,7 +260,7 @@ func h4ExpandFormat(format string, args []ssa.Value, isResp func(ssa.Value) bool
 	return h4ExpandFormatX(format, args, isResp, nil, depth, 0)
 }
 
-func h4ExpandFormatX(format string, args []ssa.Value, isResp func(ssa.Value) bool, env g5Env, depth, helpers int) []h4Alt {
+func h4ExpandFormatX(format string, args []ssa.Value, isResp func(ssa.Value) bool, env g5Env, depth, helpers int, known ...Cond) []h4Alt {
 	verbs, tail := parseVerbs(format)
 	out := []h4Alt{{}}
 	lit := func(s string) {
@@ -231,7 +282,7 @@ func h4ExpandFormatX(format string, args []ssa.Value, isResp func(ssa.Value) boo
 			}
 		}
 		if plain && isStr {
-			out = h4Cross(out, h4TextAltsX(arg, isResp, env, depth+1, helpers))
+			out = h4Cross(out, h4TextAltsX(arg, isResp, env, depth+1, helpers, known...))
 		} else {
 			out = h4Cross(out, []h4Alt{{leaves: []h4Leaf{{kind: h4Value, v: arg, env: env}}}})
 		}
@@ -287,8 +338,13 @@ func h4WrittenText(ci ssa.CallInstruction, isResp func(ssa.Value) bool) ([]h4Alt
 
 // h4WrittenTextX: helpers > 0 lets strings handed back by same-package helpers contribute their
 // alternatives (h4TextAltsX).
-func h4WrittenTextX(ci ssa.CallInstruction, isResp func(ssa.Value) bool, helpers int) ([]h4Alt, bool) {
+func h4WrittenTextX(ci ssa.CallInstruction, isResp func(ssa.Value) bool, helpers int, envs ...g5Env) ([]h4Alt, bool) {
 	args := ci.Common().Args
+	var env g5Env
+	if len(envs) > 0 {
+		env = envs[0]
+	}
+	known := condsAt(ci.Block())
 	switch callName(ci.Common()) {
 	case "fmt.Fprintf":
 		if len(args) < 2 {
@@ -296,14 +352,14 @@ func h4WrittenTextX(ci ssa.CallInstruction, isResp func(ssa.Value) bool, helpers
 		}
 		f, ok := constString(args[1])
 		if !ok {
-			return h4TextAltsX(args[1], isResp, nil, 0, helpers), true
+			return h4TextAltsX(args[1], isResp, env, 0, helpers, known...), true
 		}
-		return h4ExpandFormatX(f, h4VarArgs(ci, 2), isResp, nil, 0, helpers), true
+		return h4ExpandFormatX(f, h4VarArgs(ci, 2), isResp, env, 0, helpers, known...), true
 	case "io.WriteString", "bufio.Writer.WriteString", "bytes.Buffer.WriteString", "strings.Builder.WriteString":
 		if len(args) < 2 {
 			return nil, false
 		}
-		return h4TextAltsX(args[1], isResp, nil, 0, helpers), true
+		return h4TextAltsX(args[1], isResp, env, 0, helpers, known...), true
 	case "fmt.Fprint":
 		// operands that are all strings are written back to back
 		vals := h4VarArgs(ci, 1)
@@ -315,7 +371,7 @@ func h4WrittenTextX(ci ssa.CallInstruction, isResp func(ssa.Value) bool, helpers
 			if b, ok := unwrap(a).Type().Underlying().(*types.Basic); !ok || b.Info()&types.IsString == 0 {
 				return []h4Alt{{leaves: []h4Leaf{{kind: h4Value}}}}, true
 			}
-			out = h4Cross(out, h4TextAltsX(a, isResp, nil, 0, helpers))
+			out = h4Cross(out, h4TextAltsX(a, isResp, env, 0, helpers, known...))
 			if len(out) > h4MaxAlts {
 				return []h4Alt{{leaves: []h4Leaf{{kind: h4Value}}}}, true
 			}
@@ -323,6 +379,15 @@ func h4WrittenTextX(ci ssa.CallInstruction, isResp func(ssa.Value) bool, helpers
 		return out, true
 	}
 	return nil, false
+}
+
+// h4EdgeConds: the conditions that hold when control passes from pred to block to.
+func h4EdgeConds(pred, to *ssa.BasicBlock) []Cond {
+	conds := append([]Cond(nil), condsAt(pred)...)
+	if ifi, ok := pred.Instrs[len(pred.Instrs)-1].(*ssa.If); ok && pred.Succs[0] != pred.Succs[1] {
+		conds = append(conds, Cond{ifi.Cond, pred.Succs[0] == to, ifi})
+	}
+	return conds
 }
 
 // h4CondsOfAlt: the branch conditions under which the alternative is what write ci puts out: those
@@ -387,83 +452,91 @@ func h4LeafPath(l h4Leaf, fn *ssa.Function) string {
 // c16AuxPairs is the auxiliary-pair part of C16-reply: every alternative of every write of fn that
 // carries a response (or a '|') must be exactly " " + <address> + "|" + secureLoginResponse(chal,
 // callback(<that address>)#0) and be selected only where the password is known to be non-empty.
-func c16AuxPairs(c *Ctx, r *Report, fn *ssa.Function, chal ssa.Value) {
-	where := fnName(fn)
+func c16AuxPairs(c *Ctx, r *Report, anchor *ssa.Function, chal ssa.Value) {
+	where := fnName(anchor)
 	isRespV := func(v ssa.Value) bool {
 		call, ok := v.(*ssa.Call)
 		return ok && callName(&call.Call) == "fbb.secureLoginResponse"
 	}
 	nPair := 0
-	for _, ci := range allCalls(fn) {
-		alts, ok := h4WrittenTextX(ci, isRespV, 2)
-		if !ok {
-			continue
-		}
-		for _, alt := range alts {
-			leaves := h4Merge(alt.leaves)
-			if len(leaves) > 0 && leaves[0].kind == h4Const && strings.HasPrefix(leaves[0].s, ";PR") {
-				continue // the ;PR line: another role, decided by the ";PR response" obligation
+	// the writes of sendHandshake and of every occurrence of a same-package function below it
+	// (h4rFrames, round 4): paths are compared in the terms of the function that contains the write
+	for _, f := range h4rFrames(anchor, h4rMaxDepth) {
+		fn := f.fn
+		for _, ci := range allCalls(fn) {
+			if _, isCall := ci.(*ssa.Call); !isCall && len(f.chain) > 0 {
+				continue
 			}
-			carries := false
-			for _, l := range leaves {
-				if l.kind == h4Resp || l.kind == h4Const && strings.Contains(l.s, "|") {
-					carries = true
+			alts, ok := h4WrittenTextX(ci, isRespV, 2, f.env)
+			if !ok {
+				continue
+			}
+			for _, alt := range alts {
+				leaves := h4Merge(alt.leaves)
+				if len(leaves) > 0 && leaves[0].kind == h4Const && strings.HasPrefix(leaves[0].s, ";PR") {
+					continue // the ;PR line: another role, decided by the ";PR response" obligation
 				}
-			}
-			if !carries {
-				continue
-			}
-			nPair++
-			o := r.Add("C16-reply", where, "auxiliary 'address|response' pair", c.pos(ci.Pos()))
-			switch {
-			case len(leaves) != 4 || leaves[0].kind != h4Const || leaves[1].kind != h4Value || leaves[2].kind != h4Const || leaves[3].kind == h4Const:
-				o.Bad("the pair is written as %s, expected \" \" + <address> + \"|\" + <response>", h4Render(leaves))
-				continue
-			case leaves[0].s != " " || leaves[2].s != "|":
-				o.Bad("pair format is %s, expected \" %%s|%%s\"", h4Render(leaves))
-				continue
-			case leaves[1].v == nil || !strings.HasSuffix(h4LeafPath(leaves[1], fn), ".Addr"):
-				o.Bad("the first element of the pair is not the auxiliary address")
-				continue
-			case leaves[3].kind != h4Resp:
-				o.Bad("the second element of the pair is not a secureLoginResponse")
-				continue
-			}
-			resp := leaves[3].v.(*ssa.Call)
-			var src ssa.CallInstruction
-			if ex, ok := resp.Call.Args[1].(*ssa.Extract); ok && ex.Index == 0 {
-				if s, ok := ex.Tuple.(*ssa.Call); ok && isHandleFuncCall(s) {
-					src = s
-				}
-			}
-			guarded := false
-			forAddr := ""
-			if src != nil {
-				// conditions at the write, on the phi edges selecting the alternative, and (response
-				// computed in a helper) dominating the helper's return - there in the helper's own terms
-				for _, cd := range append(h4CondsOfAlt(ci, alt), alt.conds...) {
-					if h4NonEmptyFact(cd, resp.Call.Args[1]) {
-						guarded = true
+				carries := false
+				for _, l := range leaves {
+					if l.kind == h4Resp || l.kind == h4Const && strings.Contains(l.s, "|") {
+						carries = true
 					}
 				}
-				forAddr, _ = g5Path(src.Common().Args[0], leaves[3].env, fn)
-			}
-			switch {
-			case g5Resolve(resp.Call.Args[0], leaves[3].env) != chal:
-				o.Bad("the response is not computed from the remote's challenge")
-			case src == nil:
-				o.Bad("the response is not computed from the callback's password")
-			case forAddr != strings.TrimSuffix(h4LeafPath(leaves[1], fn), ".Addr"):
-				o.Bad("the password is requested for %s but the pair names %s", forAddr, h4LeafPath(leaves[1], fn))
-			case !guarded:
-				o.Bad("the pair is written without the 'password known' edge dominating it")
-			default:
-				o.OK("written on the password-known edge; response = secureLoginResponse(challenge, callback(address))")
+				if !carries {
+					continue
+				}
+				nPair++
+				o := r.Add("C16-reply", where, "auxiliary 'address|response' pair", c.pos(ci.Pos()))
+				switch {
+				case len(leaves) != 4 || leaves[0].kind != h4Const || leaves[1].kind != h4Value || leaves[2].kind != h4Const || leaves[3].kind == h4Const:
+					o.Bad("the pair is written as %s, expected \" \" + <address> + \"|\" + <response>", h4Render(leaves))
+					continue
+				case leaves[0].s != " " || leaves[2].s != "|":
+					o.Bad("pair format is %s, expected \" %%s|%%s\"", h4Render(leaves))
+					continue
+				case leaves[1].v == nil || !strings.HasSuffix(h4LeafPath(leaves[1], fn), ".Addr"):
+					o.Bad("the first element of the pair is not the auxiliary address")
+					continue
+				case leaves[3].kind != h4Resp:
+					o.Bad("the second element of the pair is not a secureLoginResponse")
+					continue
+				}
+				resp := leaves[3].v.(*ssa.Call)
+				var src ssa.CallInstruction
+				if ex, ok := resp.Call.Args[1].(*ssa.Extract); ok && ex.Index == 0 {
+					if s, ok := ex.Tuple.(*ssa.Call); ok && isHandleFuncCall(s) {
+						src = s
+					}
+				}
+				guarded := false
+				forAddr := ""
+				if src != nil {
+					// conditions at the write, on the phi edges selecting the alternative, and (response
+					// computed in a helper) dominating the helper's return - there in the helper's own terms
+					for _, cd := range append(append(h4CondsOfAlt(ci, alt), alt.conds...), f.condsAt(ci.Block())...) {
+						if h4NonEmptyFact(cd, resp.Call.Args[1]) {
+							guarded = true
+						}
+					}
+					forAddr, _ = g5Path(src.Common().Args[0], leaves[3].env, fn)
+				}
+				switch {
+				case g5Resolve(resp.Call.Args[0], leaves[3].env) != chal:
+					o.Bad("the response is not computed from the remote's challenge")
+				case src == nil:
+					o.Bad("the response is not computed from the callback's password")
+				case forAddr != strings.TrimSuffix(h4LeafPath(leaves[1], fn), ".Addr"):
+					o.Bad("the password is requested for %s but the pair names %s", forAddr, h4LeafPath(leaves[1], fn))
+				case !guarded:
+					o.Bad("the pair is written without the 'password known' edge dominating it")
+				default:
+					o.OK("written on the password-known edge; response = secureLoginResponse(challenge, callback(address))")
+				}
 			}
 		}
 	}
 	if nPair == 0 {
-		r.Add("C16-reply", where, "auxiliary 'address|response' pair", c.pos(fn.Pos())).Bad("no 'address|response' pair is written for auxiliary addresses")
+		r.Add("C16-reply", where, "auxiliary 'address|response' pair", c.pos(anchor.Pos())).Bad("no 'address|response' pair is written for auxiliary addresses")
 	}
 }
 
@@ -1130,8 +1203,9 @@ func (c *Ctx) h4Accesses(root ssa.Value, path, name string, filter func(ssa.Inst
 // h4FieldInit: field `field` of a struct built for a goroutine holds value val (in the terms of
 // the function that contains the go statement).
 type h4FieldInit struct {
-	field string
-	val   ssa.Value
+	field    string
+	val      ssa.Value
+	internal bool // val is a value of the constructor itself (a channel or object it creates), not of the spawner
 }
 
 // h4FieldInits lists what the fields of the struct root points to are set to: root is the struct
@@ -1153,7 +1227,7 @@ func (c *Ctx) h4FieldInits(root ssa.Value) []h4FieldInit {
 			for _, r2 := range *fa.Referrers() {
 				if st, ok := r2.(*ssa.Store); ok && st.Addr == ssa.Value(fa) {
 					if v := bind(st.Val); v != nil {
-						out = append(out, h4FieldInit{fieldName(fa.X.Type(), fa.Field), v})
+						out = append(out, h4FieldInit{fieldName(fa.X.Type(), fa.Field), v, v.Parent() != nil && root.Parent() != nil && v.Parent() != root.Parent()})
 					}
 				}
 			}
@@ -1179,8 +1253,11 @@ func (c *Ctx) h4FieldInits(root ssa.Value) []h4FieldInit {
 								return x.Call.Args[i]
 							}
 						}
+						return nil
 					}
-					return nil
+					// something the constructor creates or computes itself (round 4): kept, marked
+					// internal - it names a channel made there, and shows a counter taken from elsewhere
+					return v
 				})
 			}
 		}
@@ -1255,7 +1332,7 @@ func (c *Ctx) h4RaceStatic(r *Report, rule string, fn *ssa.Function, goInstr ssa
 		c.h4SpawnerAccesses(fn, root, "", pn, filter, &inP)
 		inits := c.h4FieldInits(root)
 		for _, fi := range inits {
-			if _, isPtr := fi.val.Type().Underlying().(*types.Pointer); isPtr && !exemptShared(fi.val.Type()) {
+			if _, isPtr := fi.val.Type().Underlying().(*types.Pointer); isPtr && !exemptShared(fi.val.Type()) && !fi.internal {
 				c.h4SpawnerAccesses(fn, fi.val, "."+fi.field+"*", pn, filter, &inP)
 			}
 		}
@@ -1350,10 +1427,23 @@ func h4ClosedEdgeChan(b *ssa.BasicBlock) ssa.Value {
 	return ch
 }
 
+// h4InitName: a channel the constructor makes is a different channel for every call of the
+// constructor: its name carries the call that built the struct (root: the struct pointer as the
+// spawner holds it).
+func h4InitName(name string, fi h4FieldInit, root ssa.Value) string {
+	if name == "" || !fi.internal {
+		return name
+	}
+	return name + "@" + h4rRoot(root).Name()
+}
+
 // h4ChanNameLocal names a channel of a closure goroutine: the variable it is loaded from.
 func h4ChanNameLocal(v ssa.Value) string {
 	if v == nil {
 		return ""
+	}
+	if mk, ok := v.(*ssa.MakeChan); ok && mk.Parent() != nil {
+		return mk.Parent().Name() + "." + mk.Name() // register names are per function
 	}
 	return strings.TrimPrefix(pathOf(v), "&")
 }
@@ -1418,6 +1508,7 @@ func (c *Ctx) h4ChanNamer(g *ssa.Go, gf *ssa.Function) func(ssa.Value) string {
 					if name = c.h4SpawnerChan(fi.val, 0); name == "" {
 						name = h4ChanNameLocal(h4StripArg(fi.val))
 					}
+					name = h4InitName(name, fi, a)
 					n++
 				}
 			}
@@ -1452,7 +1543,7 @@ func (c *Ctx) h4SpawnerChan(v ssa.Value, depth int) string {
 		name, n := "", 0
 		for _, fi := range c.h4FieldInits(h4StripArg(fa.X)) {
 			if fi.field == fieldName(fa.X.Type(), fa.Field) {
-				name = c.h4SpawnerChan(fi.val, depth+1)
+				name = h4InitName(c.h4SpawnerChan(fi.val, depth+1), fi, h4StripArg(fa.X))
 				n++
 			}
 		}
@@ -1516,7 +1607,7 @@ func (c *Ctx) h4FieldSources(fa *ssa.FieldAddr, g *ssa.Go, gf *ssa.Function, gfn
 		if depth > 4 {
 			return
 		}
-		v = h4StripArg(v)
+		v = h4rRoot(v) // also through a once-assigned local holding the pointer
 		switch x := v.(type) {
 		case *ssa.Parameter:
 			for _, a := range h4ParamArgs(x, g, gf, gfns) {
